@@ -100,6 +100,25 @@ def brace_tokens(source, node) -> TokenRange:
     return first_token, end_token
 
 
+def include_parentheses(source, token_range: TokenRange, braces: TokenRange) -> TokenRange:
+    """Extends the token range of an element by the parentheses around it
+    (`(1+2j)`), which are not part of the tokens of the ast-node."""
+    atok = source.asttokens()
+    first, last = token_range
+    while True:
+        prev_token = atok.prev_token(first)
+        next_token = atok.next_token(last)
+        if (
+            prev_token.string == "("
+            and next_token.string == ")"
+            and prev_token.startpos != braces[0].startpos
+            and next_token.startpos != braces[1].startpos
+        ):
+            first, last = prev_token, next_token
+        else:
+            return first, last
+
+
 def generic_sequence_update(
     source: SourceFile,
     parent: Union[ast.List, ast.Tuple, ast.Dict, ast.Call],
@@ -197,14 +216,16 @@ def apply_all(all_changes: List[Change], recorder: ChangeRecorder):
                 if isinstance(change, ListInsert)
             }
 
+            braces = brace_tokens(source, parent)
+
             def list_token_range(entry):
                 r = list(source.asttokens().get_tokens(entry))
-                return r[0], r[-1]
+                return include_parentheses(source, (r[0], r[-1]), braces)
 
             generic_sequence_update(
                 source,
                 parent,
-                brace_tokens(source, parent),
+                braces,
                 [None if e in to_delete else list_token_range(e) for e in parent.elts],
                 to_insert,
                 recorder,
@@ -216,16 +237,20 @@ def apply_all(all_changes: List[Change], recorder: ChangeRecorder):
             }
             atok = source.asttokens()
 
-            def arg_token_range(node):
-                if isinstance(node.parent, ast.keyword):
-                    node = node.parent
-                r = list(atok.get_tokens(node))
-                return r[0], r[-1]
-
             braces_left = atok.next_token(list(atok.get_tokens(parent.func))[-1])
             assert braces_left.string == "("
             braces_right = list(atok.get_tokens(parent))[-1]
             assert braces_right.string == ")"
+
+            def arg_token_range(node):
+                is_keyword = isinstance(node.parent, ast.keyword)
+                r = list(atok.get_tokens(node))
+                first, last = include_parentheses(
+                    source, (r[0], r[-1]), (braces_left, braces_right)
+                )
+                if is_keyword:
+                    first = list(atok.get_tokens(node.parent))[0]
+                return first, last
 
             to_insert = DefaultDict(list)
 
@@ -266,16 +291,24 @@ def apply_all(all_changes: List[Change], recorder: ChangeRecorder):
                 if isinstance(change, DictInsert)
             }
 
+            braces = brace_tokens(source, parent)
+
             def dict_token_range(key, value):
+                key_tokens = list(source.asttokens().get_tokens(key))
+                value_tokens = list(source.asttokens().get_tokens(value))
                 return (
-                    list(source.asttokens().get_tokens(key))[0],
-                    list(source.asttokens().get_tokens(value))[-1],
+                    include_parentheses(
+                        source, (key_tokens[0], key_tokens[-1]), braces
+                    )[0],
+                    include_parentheses(
+                        source, (value_tokens[0], value_tokens[-1]), braces
+                    )[1],
                 )
 
             generic_sequence_update(
                 source,
                 parent,
-                brace_tokens(source, parent),
+                braces,
                 [
                     None if value in to_delete else dict_token_range(key, value)
                     for key, value in zip(parent.keys, parent.values)
